@@ -53,8 +53,9 @@ RECURSIVE PadFrac(_, _)
 PadFrac(n, w) == IF w = 0 THEN <<>> ELSE PadFrac(n \div 10, w - 1) \o <<48 + (n % 10)>>
 DecText(m, s) == LET a == IF m < 0 THEN -m ELSE m IN
   (IF m < 0 THEN <<45>> ELSE <<>>) \o DigitsOf(a \div Pow10(s)) \o (IF s > 0 THEN <<46>> \o PadFrac(a % Pow10(s), s) ELSE <<>>)
-\* v: [k |-> "text", c] | [k |-> "dec", m, s] | [k |-> "blank"] | [k |-> "date", d]
+\* v: [k |-> "text", c] | [k |-> "dec", m, s] | [k |-> "blank"] | [k |-> "date", d] | [k |-> "bool", b]
 ToText(v) == CASE v.k = "text" -> v.c [] v.k = "dec" -> DecText(v.m, v.s) [] v.k = "blank" -> <<>> [] v.k = "date" -> DigitsOf(v.d)
+               [] v.k = "bool" -> (IF v.b THEN <<84, 82, 85, 69>> ELSE <<70, 65, 76, 83, 69>>)      \* TRUE / FALSE
 RECURSIVE ConcatAll(_)
 ConcatAll(vs) == IF vs = <<>> THEN <<>> ELSE ToText(Head(vs)) \o ConcatAll(Tail(vs))
 \* VALUE: [sign] digits [. digits]  ->  <<m, s>> normalised; anything else is outside this model
